@@ -345,6 +345,9 @@ class Inliner:
                 return None
             if isinstance(f.value, ast.Name) and f.value.id in ("self", "cls") and fi.cls is not None:
                 g = fi.cls.lookup_method(f.attr)
+                if g is not None and any(c is not fi.cls and c.is_subclass_of(fi.cls) and f.attr in c.methods and c.methods[f.attr] is not g
+                                         for c in self.p.classes.values()):
+                    return None  # virtual dispatch: a subclass overrides the method (StdDev._grad_preprocess), the call is not this body
                 if g is not None:
                     static = any(isinstance(d, ast.Name) and d.id == "staticmethod" for d in g.node.decorator_list)
                     if not static:
